@@ -27,6 +27,7 @@ type DiskEntry struct {
 	Target string `json:"target,omitempty"` // symlink target (relative)
 	Mode   uint32 `json:"mode,omitempty"`
 	AgeSec int    `json:"age_sec,omitempty"` // modification time = world start minus this many seconds
+	Stale  bool   `json:"stale,omitempty"`   // left over from an earlier run (may be dropped when minimising)
 }
 
 type CLIWorld struct {
